@@ -367,6 +367,11 @@ def convergence_test(node: ast.AST) -> Tuple[str, str, ast.AST, ast.AST, bool]:
     while isinstance(n, ast.UnaryOp) and isinstance(n.op, ast.Not):
         neg = not neg
         n = n.operand
+    while isinstance(n, ast.Call) and isinstance(n.func, ast.Name) and n.func.id == 'bool' and len(n.args) == 1 and not n.keywords:
+        n = n.args[0]
+        while isinstance(n, ast.UnaryOp) and isinstance(n.op, ast.Not):
+            neg = not neg
+            n = n.operand
     quant = None
     inner = None
     if isinstance(n, ast.Call) and dotted(n.func) in (ALL_FUNCS | {'all'}) and len(n.args) == 1:
@@ -392,7 +397,9 @@ def convergence_test(node: ast.AST) -> Tuple[str, str, ast.AST, ast.AST, bool]:
                         if side is n.comparators[0]:
                             op = {'<': '>', '<=': '>=', '>': '<', '>=': '<='}[op]
                         q, o = _apply_neg('all', op, neg)
-                        return (q, o, side.args[0], other, True)
+                        r_ = ConvTest((q, o, side.args[0], other, True))
+                        r_.nan_permissive = bool(neg)
+                        return r_
                 raise Wrong(f'`{text(node)}`: a vector norm other than the infinity norm is compared with tol: with two or more check variables each may move '
                             f'by less than tol while the norm does not (expected every |movement| < tol)')
             # max(abs(d)) OP tol : equivalent for non-empty d, raises ValueError for an empty check list
@@ -423,8 +430,11 @@ def convergence_test(node: ast.AST) -> Tuple[str, str, ast.AST, ast.AST, bool]:
         it = inner.generators[0].iter
         var = inner.generators[0].target
         # nested reduction: all(np.all(P(v)) for v in D) -- same quantifier twice
+        inner_perm = False
         try:
-            q2, op, d, tol, has_abs = convergence_test(elt)
+            rr_ = convergence_test(elt)
+            q2, op, d, tol, has_abs = rr_
+            inner_perm = getattr(rr_, 'nan_permissive', False)
             if q2 != quant:
                 quant = 'any'  # an existential layer anywhere makes the whole test existential
         except Wrong:
@@ -434,13 +444,25 @@ def convergence_test(node: ast.AST) -> Tuple[str, str, ast.AST, ast.AST, bool]:
         if isinstance(var, ast.Name) and isinstance(d, ast.Name) and d.id == var.id:
             d = it
         q, o = _apply_neg(quant, op, neg)
-        return (q, o, d, tol, has_abs)
+        r_ = ConvTest((q, o, d, tol, has_abs))
+        r_.nan_permissive = bool(neg) != bool(inner_perm)
+        return r_
     op, d, tol, has_abs = elementwise(inner)
     q, o = _apply_neg(quant, op, neg)
-    return (q, o, d, tol, has_abs)
+    r_ = ConvTest((q, o, d, tol, has_abs))
+    r_.nan_permissive = bool(neg)
+    return r_
+
+
+class ConvTest(tuple):
+    """(quantifier, op, operand, tol, has_abs) plus `nan_permissive`: the comparison was read through a negation
+    (`not (x >= tol)` as `x < tol`), which is the same for numbers but not for NaN - NaN compares False both ways, so a
+    NaN movement passes the negated form (`not any(|d| >= tol)`) and fails the plain one (`all(|d| < tol)`)."""
+    nan_permissive = False
 
 
 def _apply_neg(quant: str, op: str, neg: bool) -> Tuple[str, str]:
+    _apply_neg.last_flipped = bool(neg)
     if not neg:
         return (quant, op)
     # not all(p) == any(not p); not any(p) == all(not p)
